@@ -25,9 +25,9 @@ Section CancelProgram.
   (* ================= the counter invariant ================= *)
 
   Definition goodp (o : pout value St err) (cs : cstate) : Prop :=
-    match o with POk _ _ _ => Inv cs | PStop r => good r cs end.
+    match o with POk _ _ _ | PNext _ _ _ => Inv cs | PStop r => good r cs end.
   Definition goodm (o : mout value St err) (cs : cstate) : Prop :=
-    match o with MOk _ _ _ _ => Inv cs | MStop r => good r cs end.
+    match o with MOk _ _ _ _ | MNext _ _ _ _ => Inv cs | MStop r => good r cs end.
   Definition goodl (o : lout value St err) (cs : cstate) : Prop :=
     match o with LNextLine _ _ | LNextFile _ _ => Inv cs | LStop r => good r cs end.
 
@@ -37,7 +37,7 @@ Section CancelProgram.
     intros HI H. unfold Cancel.eval_pattern in H.
     destruct (run_ctx f pat 0 stk m cs) as [x csb] eqn:E.
     destruct (rci _ _ _ _ _ _ _ _ HI E) as (Hg & He).
-    destruct x as [r|mb]; [destruct r as [stk' m'|v stk' m'|stk' m'|x0 m'| |]; [destruct stk'|..]|];
+    destruct x as [r|mb]; [destruct r as [stk' m'|v stk' m'|stk' m'|x0 m'| |]; [destruct stk'| | |destruct x0| |]|];
       inversion H; subst; split; auto.
   Qed.
 
@@ -58,12 +58,13 @@ Section CancelProgram.
         - eapply eval_pattern_inv; eassumption. }
       destruct (if ir then (POk true stk m, cs) else eval_pattern f p0 stk m cs) as [o0 cs0] eqn:E0.
       destruct (Hstart _ _ eq_refl) as (Hg0 & He0).
-      destruct o0 as [b stk' m'|r].
+      destruct o0 as [b stk' m'|fl stk' m'|r].
       + destruct b.
         * destruct (eval_pattern f p1 stk' m' cs0) as [o1 cs1] eqn:E1.
           destruct (eval_pattern_inv _ _ _ _ _ _ _ Hg0 E1) as (Hg1 & He1).
           destruct o1; inversion H; subst; (split; [exact Hg1|eapply ext_trans; eassumption]).
         * inversion H; subst. split; assumption.
+      + inversion H; subst. split; assumption.
       + inversion H; subst. split; assumption.
     - inversion H; subst. split; [exact HI|apply ext_refl].
   Qed.
@@ -77,7 +78,8 @@ Section CancelProgram.
       destruct inr as [|ir inr0]; [inversion H; subst; split; [exact HI|apply ext_refl]|].
       destruct (match_pattern f pats ir stk m cs) as [om cs1] eqn:Em.
       destruct (match_pattern_inv _ _ _ _ _ _ _ _ HI Em) as (Hg1 & He1).
-      destruct om as [matched ir' stk1 m1|r]; [|inversion H; subst; split; assumption].
+      destruct om as [matched ir' stk1 m1|fl ir' stk1 m1|r];
+        [|destruct fl; inversion H; subst; split; assumption|inversion H; subst; split; assumption].
       cbn [goodm] in Hg1.
       assert (Hgo : forall stk2 m2 cs2 o2 inr2 cs3, Inv cs2 -> ext cs cs2 ->
                 (let '(o, inr'', cs3) := run_rules f rest inr0 stk2 m2 cs2 in (o, ir' :: inr'', cs3)) = (o2, inr2, cs3) ->
